@@ -8,6 +8,9 @@ claimed={
  "C14":("other","Inductive one-step refinement of both bitstreams against an abstract bit string: from an arbitrary valid state every operation is symbolically executed on the real code and SMT decides, for all values inside the bounds, that it appends/consumes exactly its bits, keeps the counters exact, re-establishes the invariant and refuses operations after Close. Histories of any length follow by induction; array operations are bounded in bits.","DESIGN.md 5/C14", TECH+", inductive one-step refinement"),
  "C16":("other","NormalizeFrequencies executed symbolically on histogram families with symbolic counts (all k<=3/4-symbol histograms and many-rare/few-dominant families, power-of-two totals); SMT decides sum==scale, presence, order on every path.","DESIGN.md 5/C16", TECH+", path-wise over histogram families"),
  "C15":("other","Name tables and every variant-selecting constructor executed with the letter case of each character symbolic (all spellings at once); oracle: same type as canonical spelling, canonical round trip, and encoder-side variant == header-derived variant.","DESIGN.md 5/C15", TECH+", symbolic letter case"),
+ "C04":("other","Writer.Write executed symbolically from an arbitrary valid state with real processBlock/encode (NONE/NONE): the emitted block sequence is shown to depend only on the data (not on jobs, size hint, call boundaries), inductively over call sequences. Schedule independence rests on C07.","DESIGN.md 5/C04", TECH+", inductive step over Write calls"),
+ "C05":("other","Writer->tape->Reader composition executed symbolically with the real stream code: output == input for every content/size hint within the length bounds and job pairs; damaged block => error and only a correct prefix is ever delivered.","DESIGN.md 5/C05", TECH),
+ "C11":("other","Block-range decoding with symbolic from/to over the real Reader/decode: output is exactly the requested slice, incl. empty ranges and all-skipped batches.","DESIGN.md 5/C11", TECH),
 }
 NA_REASON={}
 checks=[]
@@ -19,7 +22,7 @@ m={"version":1,
  "hooks":{"guard":"verif","enable":"harnesses are injected by go/packages and `go test -overlay` (build tag verif is passed but no hook file exists in /repo: nothing in /repo is instrumented)","baseline_off_cmd":"cd /repo/v2 && GOFLAGS=-mod=mod go test -json -vet=off -count=1 -timeout 25m ./...","source_commits":[],"add_only":True},
  "engines":[{"name":"gosmt","path":"/verif/engine","serves_properties":sorted(claimed),"kind_free_text":"bounded symbolic executor for Go SSA (golang.org/x/tools/go/ssa v0.29.0) emitting SMT-LIB2 for z3 4.8.12 / z3 5.1.0 / cvc5 1.0, with native replay of models via go test -overlay"}],
  "checks":checks,
- "notes":"fix: commits in /repo: fbf38b7 (C16/F1), 8fe1c5e (C15/F4); see known_findings.json and DESIGN.md section 6.",
+ "notes":"fix: commits in /repo: fbf38b7 (C16/F1), 8fe1c5e (C15/F4), 5798e9b (C04,C01/F2), 7897bc6 (C05,C02/F3a); see known_findings.json and DESIGN.md section 6.",
  "not_applicable":[{"property_id":p['id'],"reason":NA_REASON.get(p['id'],"check not built yet in this round (planned with this technique, see DESIGN.md section 5)")} for p in props if p['id'] not in claimed]}
 json.dump(m,open('/verif/MANIFEST.json','w'),indent=1)
 print("claimed",sorted(claimed))
